@@ -334,7 +334,14 @@ class Engine:
 
     def load(self, st, lv, vol=False, loc=None, ty=None):
         if vol:
-            self.emit(st, "VREAD", lv, loc=loc, extra={"t": ty})
+            root = lv
+            while root[0] in ("fld", "idx"):
+                root = root[1]
+            local = root[0] in ("tmp", "var")
+            self.emit(st, "VREAD", lv, loc=loc, extra={"t": ty, "local": local})
+            if local:
+                # a volatile-qualified *view* of an application-side local object: an ordinary load
+                return self.load(st, lv)
             return ("vrd", next(self.uid), lv)
         if lv in st.mem:
             return st.mem[lv]
@@ -1408,13 +1415,14 @@ class Engine:
         fr = Frame(0, fn, this, 0, ret_is_ref=bool((fn.get("ret") or {}).get("ref")))
         st.frames[0] = fr
         st.callstack = ()
-        for p in fn["params"]:
+        names = root_param_names(fn)
+        for p, pn in zip(fn["params"], names):
             t = p["t"] or {}
             if t.get("ref") or self.is_rec(t):
-                fr.binds[p["d"]] = ("pobj", p["n"])
+                fr.binds[p["d"]] = ("pobj", pn)
             else:
-                lv = ("var", "P", p["n"])
-                st.mem[lv] = ("p", p["n"])
+                lv = ("var", "P", pn)
+                st.mem[lv] = ("p", pn)
                 fr.binds[p["d"]] = lv
         states = [st]
         if fn.get("kind") == "ctor":
@@ -1429,6 +1437,21 @@ class Engine:
                 continue
             paths.append(PathResult(s.events, s.retval, s))
         return paths
+
+
+def root_param_names(fn):
+    """unique names for root parameters (pack expansions share one name: params#0, params#1, ...)"""
+    names = [p["n"] for p in fn["params"]]
+    out = []
+    seen = {}
+    for n in names:
+        if names.count(n) > 1 or n == "":
+            k = seen.get(n, 0)
+            seen[n] = k + 1
+            out.append("%s#%d" % (n or "arg", k))
+        else:
+            out.append(n)
+    return out
 
 
 class PathResult:
